@@ -169,15 +169,26 @@ def run_job(job):
                     nch.append(val_of(r[1]).reshape(())[()])
                     return r
                 solver._iteration_step = step
-            calc_outs = []
+            eval_broke = []
             if job["solver"] == "pi":
+                orig_eval = solver._evaluate_policy
                 orig_calc = solver._calculate_policy_values
+                calc_outs = []
 
-                def calc(policy, values):
-                    o_ = orig_calc(policy, values)
+                def calc(*a, **k):
+                    o_ = orig_calc(*a, **k)
                     calc_outs.append(o_)
                     return o_
                 solver._calculate_policy_values = calc
+
+                def ev(*a, **k):
+                    n0 = len(calc_outs)
+                    o_ = orig_eval(*a, **k)
+                    # the loop was left by its own test iff it returned a pre-update iterate (sweeps made inside this
+                    # evaluation only: other uses of the one-step function elsewhere in the solver do not count)
+                    eval_broke.append(len(calc_outs) > n0 and o_ is not calc_outs[-1])
+                    return o_
+                solver._evaluate_policy = ev
             from loguru import logger
             msgs = []
             hid = logger.add(lambda m: msgs.append(str(m)), level="INFO")
@@ -186,8 +197,10 @@ def run_job(job):
             finally:
                 logger.remove(hid)
             reported = any("Convergence threshold reached" in m or "Policy converged" in m for m in msgs)
-            # PI: the evaluation loop left by its own test iff it returned a pre-update iterate
-            eval_break = (job["solver"] != "pi") or (len(calc_outs) > 0 and st.values is not calc_outs[-1])
+            # PI: the (last) evaluation loop was left by its own test iff its last measure is below the threshold on this path
+            eval_break = True
+            if job["solver"] == "pi":
+                eval_break = bool(eval_broke and eval_broke[-1])
             return dict(reported=reported, eval_break=eval_break,W=val_of(st.values), pol=val_of(st.policy), thr=val_of(solver.conv_threshold).reshape(())[()], convs=convs, nch=nch,
                         V=val_of(sym("V", (S,))), PI=None if job["solver"] != "pi" else val_of(sym("PI", (S, job.get("da", 1)), "int")),
                         aspace=np.asarray(pb.action_space), P=np.asarray(pb.P))
@@ -336,7 +349,41 @@ def replay(data):
     solver = kit.make_solver(job["solver"], pb, **kw)
     if job["solver"] == "pi" and c.get("PI") is not None:
         solver.policy = jnp.asarray(np.array(c["PI"], dtype=np.int32))
-    st = solver.solve(1)
+    # the property speaks about runs that report convergence (and, for PI, whose evaluation was left by its own test)
+    from loguru import logger
+    msgs, evals, cv = [], [], []
+    orig_c = solver._convergence_test_fn
+
+    def rec(*a, **k):
+        cv.append(float(orig_c(*a, **k)))
+        return cv[-1]
+    solver._convergence_test_fn = rec
+    if job["solver"] == "pi":
+        orig_e = solver._evaluate_policy
+        orig_k = solver._calculate_policy_values
+        kouts = []
+
+        def kcalc(*a, **k):
+            kouts.append(orig_k(*a, **k))
+            return kouts[-1]
+        solver._calculate_policy_values = kcalc
+
+        def ev(*a, **k):
+            n0 = len(kouts)
+            o_ = orig_e(*a, **k)
+            evals.append(len(kouts) > n0 and o_ is not kouts[-1])
+            return o_
+        solver._evaluate_policy = ev
+    hid = logger.add(lambda m: msgs.append(str(m)), level="INFO")
+    try:
+        st = solver.solve(1)
+    finally:
+        logger.remove(hid)
+    reported = any("Convergence threshold reached" in m or "Policy converged" in m for m in msgs)
+    if not reported:
+        return False, f"{job['name']}: the real run does not report convergence (precondition of the property)"
+    if job["solver"] == "pi" and not (evals and evals[-1]):
+        return False, f"{job['name']}: the real run's policy evaluation hit its budget without converging (precondition of the property)"
     asp = np.asarray(pb.action_space)
     pol = np.asarray(st.policy)
     pol_idx = [int(np.where((asp == pol[i]).all(1))[0][0]) for i in range(S)]
